@@ -78,13 +78,15 @@ Pairs(a) == [k \in 1..(Len(a) \div 2) |-> <<a[2 * k - 1] * 1000, a[2 * k] * 1000
 CmdResult(t, verb, a) ==
   LET s == trx[t] n == Len(a) IN
   CASE verb = "SETTA" /\ n = 1 -> R(Upd(t, [s EXCEPT !.ta = a[1]]), clk, 0)
-    [] verb = "FAKE_TOA" /\ n = 2 -> R(Upd(t, [s EXCEPT !.toa = [base |-> a[1], thr |-> a[2]]]), clk, 0)
+    [] verb = "FAKE_TOA" /\ n = 2 ->
+         IF a[2] < 0 THEN Same(-1) ELSE R(Upd(t, [s EXCEPT !.toa = [base |-> a[1], thr |-> a[2]]]), clk, 0)
     [] verb = "FAKE_TOA" /\ n = 1 -> R(Upd(t, [s EXCEPT !.toa.base = @ + a[1]]), clk, 0)
     [] verb = "FAKE_RSSI" /\ n = 2 ->
          IF a[2] < 0 THEN R(Upd(t, [s EXCEPT !.frssi.on = FALSE]), clk, 0)
          ELSE R(Upd(t, [s EXCEPT !.frssi = [on |-> TRUE, base |-> a[1], thr |-> a[2]]]), clk, 0)
     [] verb = "FAKE_RSSI" /\ n = 1 -> R(Upd(t, [s EXCEPT !.frssi.base = @ + a[1]]), clk, 0)
-    [] verb = "FAKE_CI" /\ n = 2 -> R(Upd(t, [s EXCEPT !.ci = [base |-> a[1], thr |-> a[2]]]), clk, 0)
+    [] verb = "FAKE_CI" /\ n = 2 ->
+         IF a[2] < 0 THEN Same(-1) ELSE R(Upd(t, [s EXCEPT !.ci = [base |-> a[1], thr |-> a[2]]]), clk, 0)
     [] verb = "FAKE_CI" /\ n = 1 -> R(Upd(t, [s EXCEPT !.ci.base = @ + a[1]]), clk, 0)
     [] verb = "FAKE_DROP" /\ n = 1 ->
          IF a[1] < 0 THEN Same(-1) ELSE R(Upd(t, [s EXCEPT !.drop = [n |-> a[1], period |-> 1]]), clk, 0)
@@ -195,9 +197,9 @@ RangeAll(w, lo, hi) == w[1] >= lo /\ w[2] <= hi
 RangeNone(w, lo, hi) == w[2] < lo \/ w[1] > hi
 LenOk(e) == IF e.kind = "nope" THEN TRUE ELSE IF e.kind = "none" THEN FALSE
             ELSE IF e.ver = 0 THEN Len(e.bits) \in {GB, 3 * GB} ELSE e.mod # "unknown"
-MustSend(e) == /\ LenOk(e) /\ RangeAll(e.rssi, -120, -47) /\ RangeAll(e.toa, -32768, 32767)
+MustSend(e) == /\ LenOk(e) /\ e.fn < Hyper /\ RangeAll(e.rssi, -120, -47) /\ RangeAll(e.toa, -32768, 32767)
                /\ (e.ver >= 1 => RangeAll(e.ci, -1280, 1280))
-MustNotSend(e) == \/ ~LenOk(e) \/ RangeNone(e.rssi, -120, -47) \/ RangeNone(e.toa, -32768, 32767)
+MustNotSend(e) == \/ ~LenOk(e) \/ e.fn >= Hyper \/ RangeNone(e.rssi, -120, -47) \/ RangeNone(e.toa, -32768, 32767)
                   \/ (e.ver >= 1 /\ RangeNone(e.ci, -1280, 1280))
 
 \* Routing (BurstForwarder.forward_msg): every other running transceiver whose
